@@ -61,6 +61,9 @@ class C01(core.Check):
     def run_impl(self, case: dict) -> Any:
         return pc.prepare(case)
 
+    def shrink_candidates(self, case: dict) -> List[dict]:
+        return pc.shrink_candidates(case)
+
     def requests(self, case: dict, impl: Any) -> List[str]:
         if "internals" not in impl or impl.get("chop_error") or impl.get("unrealisable") or impl.get("extreme"):
             return []
